@@ -4,7 +4,10 @@ strings, canonical observables of Magnet objects, hash-string generators, a loop
 that serves torrents and records the requests it sees.
 """
 import base64
+import glob
 import http.server
+import json
+import os
 import threading
 
 FOLD = {'İ': 'i', 'ı': 'i', 'ſ': 's', 'K': 'k'}
@@ -167,3 +170,12 @@ class TorrentServer:
     def close(self):
         self.srv.shutdown()
         self.srv.server_close()
+
+
+def corpus_cases(prop):
+    """cases of corpus/<prop>/*.json (minimised past failures and witnesses); they run first"""
+    from harness import common
+    out = []
+    for f in sorted(glob.glob(os.path.join(common.CORPUS_DIR, prop, '*.json'))):
+        out.append(json.load(open(f))['case'])
+    return out
